@@ -26,7 +26,7 @@ func init() {
 const maxWorkers = 4
 
 func run(c *vf.Ctx) {
-	c.Rule("case = (generated SQL text, way of sending it). Texts: plain SELECTs (control), EXPLAIN / EXPLAIN QUERY PLAN of writes, CTE+DML, INSERT/UPDATE/DELETE … RETURNING, PRAGMAs with side effects (user_version=, application_id=, incremental_vacuum, optimize, auto_vacuum, page_size, encoding …), ATTACH/DETACH (memory, file, URI, followed by DDL/DML), temp tables/views/triggers, VACUUM / VACUUM INTO / REINDEX / ANALYZE, multi-statement texts whose first statement is one SQLite calls read-only (SELECT, WITH, VALUES, EXPLAIN, PRAGMA read, BEGIN, SAVEPOINT, ATTACH, comment, empty statement) and a later one writes, BEGIN IMMEDIATE/EXCLUSIVE/COMMIT/ROLLBACK/SAVEPOINT texts, plain writes, texts with positional and named parameters; every write carries a token unique to the text so that executing it always changes the logical dump. Ways: GET /db/query, POST /db/query (JSON or text/plain), POST /db/request with the text alone, POST /db/request with the text next to the harness's own no-op write; on the leader or a follower; level none/weak/linearizable/strong/auto; with/without ?transaction (80 ways; quick sends each text in 6 of them, thorough in 12, always including /db/request at level strong, the mixed request and the query endpoint on a follower). non-trivial = request whose text is not a control SELECT; distinct by text and way")
+	c.Rule("case = (generated SQL text, way of sending it). Texts: plain SELECTs (control), EXPLAIN / EXPLAIN QUERY PLAN of writes, CTE+DML, INSERT/UPDATE/DELETE … RETURNING, PRAGMAs with side effects (user_version=, application_id=, incremental_vacuum, optimize, auto_vacuum, page_size, encoding …), ATTACH/DETACH (memory, file, URI, followed by DDL/DML), temp tables/views/triggers, VACUUM / VACUUM INTO / REINDEX / ANALYZE, multi-statement texts whose first statement is one SQLite calls read-only (SELECT, WITH, VALUES, EXPLAIN, PRAGMA read, BEGIN, SAVEPOINT, ATTACH, comment, empty statement) and a later one writes, BEGIN IMMEDIATE/EXCLUSIVE/COMMIT/ROLLBACK/SAVEPOINT texts, plain writes, texts with positional and named parameters, and guard-off texts (12 per batch of 120 in quick, 20 per 200 in thorough, spread between the other texts): a PRAGMA that would switch off a connection-level write protection (query_only off, writable_schema on) spelled `name = v` / `name=v` / `name(v)`, schema-qualified or not, any keyword case and boolean spelling, at the start of the text, behind a comment or behind a first SELECT - sent alone (what it leaves on a pooled connection meets the texts that follow), followed by a write in the same text, or followed by a write as the next statement of the same request; every write carries a token unique to the text so that executing it always changes the logical dump. Ways: GET /db/query, POST /db/query (JSON or text/plain), POST /db/request with the text alone, POST /db/request with the text next to the harness's own no-op write; on the leader or a follower; level none/weak/linearizable/strong/auto; with/without ?transaction (80 ways; quick sends each text in 6 of them, thorough in 12, always including /db/request at level strong, the mixed request and the query endpoint on a follower). non-trivial = request whose text is not a control SELECT; distinct by text and way")
 	c.Assume("state of a node = bytes of db.sqlite and db.sqlite-wal read from disk at quiescence (no request in flight, every node's FSM index caught up with the leader's), the logical dump of a private copy of these two files (sqlref.DumpFile: schema, all rows with storage classes, user_version, application_id), file sizes, raft commit/applied/db-applied index; the dump is recomputed whenever the bytes differ")
 	c.Assume("which statements a unified request treats as read-only is taken from the real code: the statement goes through command/sql.Process and Store.RORWCount exactly as in the HTTP handler and Store.Request; a unified request is judged when rqlite treats the generated text as read-only (alone, or next to the harness's own `DELETE FROM t1 WHERE 0`), otherwise its effect is accepted as a write and the baseline is re-read")
 	c.Assume("snapshots are disabled in the harness cluster (they checkpoint the WAL legitimately); files created by ATTACH / VACUUM INTO outside the node's database are counted, not judged; temp objects are connection-local and not part of the dump; after a text containing BEGIN/SAVEPOINT was sent to the unified endpoint the harness sends ROLLBACK through /db/execute so that an open transaction cannot hide later changes")
@@ -48,6 +48,7 @@ func run(c *vf.Ctx) {
 	nTexts := c.N(480, 3200)
 	nCombos := c.N(6, 12)
 	batch := c.N(120, 200)
+	nGuard := c.N(12, 20) // guard-off texts per batch, in addition to the batch's ordinary texts
 	type job struct{ lo, hi int }
 	jobs := make(chan job, nTexts/batch+1)
 	for lo := 0; lo < nTexts; lo += batch {
@@ -67,7 +68,7 @@ func run(c *vf.Ctx) {
 			defer wg.Done()
 			for j := range jobs {
 				dir := filepath.Join(tmp, fmt.Sprintf("b%d", j.lo))
-				args := []string{fmt.Sprint(j.lo), fmt.Sprint(j.hi), fmt.Sprint(c.Seed), c.Tier, dir, fmt.Sprint(nCombos)}
+				args := []string{fmt.Sprint(j.lo), fmt.Sprint(j.hi), fmt.Sprint(c.Seed), c.Tier, dir, fmt.Sprint(nCombos), fmt.Sprint(nGuard)}
 				out, code, ok := vf.RunWorkerOnce(false, "c17", args, nil, filepath.Join(tmp, fmt.Sprintf("b%d.log", j.lo)), 45*time.Minute)
 				os.RemoveAll(dir)
 				mu.Lock()
@@ -155,7 +156,7 @@ func judge(c *vf.Ctx, t *Text, r ReqResult) {
 	c.Count("judged:"+scope, 1)
 	c.Count("judged_family:"+t.Family, 1)
 	if !t.Control {
-		c.Nontrivial(t.SQL + "|" + r.Combo.String())
+		c.Nontrivial(strings.Join(t.Pre, "\x00") + "\x00" + t.SQL + "|" + r.Combo.String())
 	}
 	k := t.Family + "/" + r.Combo.EP
 	if !sampled[k] && len(sampled) < 6 && !t.Control {
@@ -175,6 +176,10 @@ func judge(c *vf.Ctx, t *Text, r ReqResult) {
 	} else if t.Family == "pragma-side-effect" {
 		what = "pragma-" + pragmaName(t.SQL)
 	}
+	shown := t.SQL
+	if len(t.Pre) > 0 {
+		shown = "[" + strings.Join(t.Pre, " | ") + " | " + t.SQL + "] (separate statements of one request)"
+	}
 	held := true
 	reported := map[string]bool{}
 	for _, ch := range r.Changes {
@@ -183,13 +188,13 @@ func judge(c *vf.Ctx, t *Text, r ReqResult) {
 		case ch.Logical:
 			key = scope + ":" + what + ":" + route
 			msg = fmt.Sprintf("the database of node %s changed across %s (%s): text %q sent as %s answered HTTP %d %s; raft commit index %d -> %d; dump difference:\n%s",
-				ch.Node, describe(r), r.Why, t.SQL, r.Combo, r.Status, r.Reply, ch.Before.Commit, ch.After.Commit, ch.Diff)
+				ch.Node, describe(r), r.Why, shown, r.Combo, r.Status, r.Reply, ch.Before.Commit, ch.After.Commit, ch.Diff)
 		case ch.SizeOnly:
 			// the statement wrote to the database files although the content ended up the
 			// same (e.g. the same value written again): same defect class, same key
 			key = scope + ":" + what + ":" + route
 			msg = fmt.Sprintf("the database files of node %s were written (db %d -> %d bytes, wal %d -> %d bytes, logical dump unchanged) across %s (%s): text %q sent as %s answered HTTP %d %s",
-				ch.Node, ch.Before.DBSize, ch.After.DBSize, ch.Before.WALSize, ch.After.WALSize, describe(r), r.Why, t.SQL, r.Combo, r.Status, r.Reply)
+				ch.Node, ch.Before.DBSize, ch.After.DBSize, ch.Before.WALSize, ch.After.WALSize, describe(r), r.Why, shown, r.Combo, r.Status, r.Reply)
 			c.Count("changes_files_only", 1)
 		default:
 			c.Count("file_bytes_changed_same_dump_same_size", 1)
